@@ -125,7 +125,9 @@ pub fn check_sim(prop: &str, tier: &str) -> i32 {
     let props: Vec<Prop> = Prop::parse(prop).into_iter().collect();
     let check_panics = prop == "C09";
     let scs = scenarios_for(prop, quick);
-    let budget = if quick { Duration::from_secs(50) } else { Duration::from_secs(25 * 60) };
+    // (quick: a safety cap only — the tier takes about 40 s on an idle machine; the cap is generous so
+    // that a loaded machine costs time, not coverage)
+    let budget = if quick { Duration::from_secs(150) } else { Duration::from_secs(25 * 60) };
     let deadline = Instant::now() + budget;
     let mut per_scenario = Vec::new();
     let mut machinery: Vec<String> = Vec::new();
@@ -173,7 +175,7 @@ pub fn check_sim(prop: &str, tier: &str) -> i32 {
     }
     // restart halves (journal engine) of the properties that quantify over crash points
     if matches!(prop, "C03" | "C06" | "C07" | "C08" | "C09" | "C13" | "C14") {
-        let jbudget = if quick { Duration::from_secs(40) } else { Duration::from_secs(15 * 60) };
+        let jbudget = if quick { Duration::from_secs(120) } else { Duration::from_secs(15 * 60) };
         let (found, stats) = crate::journal::run_with(tier, Instant::now() + jbudget, &props, check_panics);
         machinery.extend(stats.machinery.iter().cloned());
         crate::journal::fill_report(&mut report, prop, found, &stats);
